@@ -52,3 +52,27 @@ JOBS += [
     _unit("make_failure_token", "U_failure_token", ["C04", "C05", "C13"], ["make_failure_token"],
           {"repo_src": ["lib/util-make-failure-token.c"], "allow_no_body": ["gensalt_", "crypt_", "get_random_bytes"]}),
 ]
+
+
+def _api(name, define, props, functions, extra=None):
+    j = {"name": name, "props": props, "functions": functions,
+         "harness": "harness/api.c", "defs": [define + "=1", "XV_BZERO_EVENTS=1"],
+         "verif_src": ["models/strings.c"], "repo_src": ["lib/util-make-failure-token.c"],
+         "replace_calls": ["do_crypt:do_crypt_stub", "check_badsalt_chars:check_badsalt_chars_stub",
+                           "get_hashfn:get_hashfn_stub"],
+         "allow_no_body": ["gensalt_", "crypt_", "get_random_bytes"],
+         "unwind": 20, "bounds": {"SPAN": 64, "STR": 32}, "mem_gb": 4, "timeout": 400}
+    j.update(extra or {})
+    return j
+
+JOBS += [
+    _api("crypt_rn_small", "A_crypt_rn_small", ["C04", "C05"], ["crypt_rn"]),
+    _api("crypt_rn", "A_crypt_rn", ["C04", "C05", "C07"], ["crypt_rn"]),
+    _api("crypt_r", "A_crypt_r", ["C04", "C05", "C07"], ["crypt_r"]),
+    _api("crypt_ra", "A_crypt_ra", ["C04", "C05", "C07", "C14"], ["crypt_ra"]),
+    _api("crypt_ra_alloc", "A_crypt_ra_alloc", ["C09", "C14", "C15"], ["crypt_ra"],
+         {"cbmc_flags": ["--memory-leak-check"],
+          "assumptions": ["realloc model: may fail; on success frees the old block and returns a fresh block with arbitrary contents"]}),
+    _api("crypt_checksalt", "A_checksalt", ["C18", "C19"], ["crypt_checksalt"]),
+    _api("crypt_preferred_method", "A_preferred", ["C18", "C19"], ["crypt_preferred_method"]),
+]
